@@ -214,6 +214,10 @@ func runC03(run *core.Run) {
 	core.Parallel(n, func(i int) {
 		r := run.Rng("c03", i)
 		g := &gen.DSLGen{R: r}
+		if i%800 == 77 {
+			g.ForceDeep = 40 + r.Intn(50)
+			run.Count("documents_with_40_to_90_nested_groups", 1)
+		}
 		modular := r.Intn(3) == 0
 		d := g.Doc(modular)
 		if r.Intn(25) == 0 && len(d.Conds) > 0 {
